@@ -207,20 +207,28 @@ def mismatch_kind(i, m):
     return k(i) + "/" + k(m)
 
 
-def differs(lines):
+def first_diff_kind(lines):
+    """(kind, op-name) of the first disagreement of a history, or None"""
     impl, model = eval_history(lines, "shrink")
     n = min(len(impl), len(model))
     for j in range(n):
         if impl[j] != model[j]:
-            return True
-    return len(impl) != len(model)
+            return (mismatch_kind(impl[j], model[j]), lines[j].split(" ")[0] if j < len(lines) else "")
+    if len(impl) != len(model):
+        return ("length", "")
+    return None
 
 
 def shrink(lines, budget_s=60):
-    """delta-debugging on operation lines (the leading reset/cfg/open lines are kept if needed)"""
+    """delta-debugging on operation lines; a candidate is kept only if its first disagreement is
+    of the same kind, at the same kind of operation, as the original one"""
     t0 = time.time()
-    if not differs(lines):
+    want = first_diff_kind(lines)
+    if want is None:
         return lines
+
+    def differs(cand):
+        return first_diff_kind(cand) == want
     cur = list(lines)
     n = 2
     while len(cur) >= 2 and time.time() - t0 < budget_s:
